@@ -14,7 +14,7 @@ PROPS = ("C09",)
 
 
 def plan(tier, seed):
-    return ec.plan_e2e(seed, 9, MIX, 180 if tier == "quick" else 2000)
+    return ec.plan_e2e(seed, 9, MIX, 180 if tier == "quick" else 2000, nwcap=12 if tier == "quick" else 24)
 
 
 def nontrivial(run, I):
